@@ -694,10 +694,11 @@ __CPROVER_assigns(g_draws)
 __CPROVER_ensures(__CPROVER_return_value > 0 && __CPROVER_return_value <= phys_step)
 ;
 /* MscStepToGeo(tstep): own EXPECT 0 <= tstep <= range; geometric path <= true path (c14_msc_to_geo) and > 0 for a positive true path (assumed: transcendental) */
+real_type g_togeo;      /* ghost: the geometric path MscStepToGeo returned (before the clamp to one MSC mean free path) */
 MscStepToGeoResult TOGEO_call(real_type tstep, real_type range)
 __CPROVER_requires(tstep >= 0 && tstep <= range)
-__CPROVER_assigns()
-__CPROVER_ensures(__CPROVER_return_value.step <= tstep && (tstep > 0 ==> __CPROVER_return_value.step > 0))
+__CPROVER_assigns(g_togeo)
+__CPROVER_ensures(__CPROVER_return_value.step <= tstep && (tstep > 0 ==> __CPROVER_return_value.step > 0) && g_togeo == __CPROVER_return_value.step)
 ;
 /* MscStepFromGeo(gstep): own EXPECT 0 <= gstep <= true_step; result in [gstep, true_step] (c14_msc_from_geo) */
 real_type FROMGEO_call(real_type gstep, real_type true_step)
@@ -754,12 +755,14 @@ __CPROVER_requires(VIEW_OK(track))
 /* state after the pre-step: a positive finite physics step that does not exceed the range (is_applicable: step > geom_limit > 0) */
 __CPROVER_requires(track->t->step_length > 0 && !__CPROVER_isinfd(track->t->step_length) && track->t->step_length <= track->t->dedx_range && !__CPROVER_isinfd(track->t->dedx_range))
 __CPROVER_requires(g_limit_min_fix > 0 && g_helper_max_step > 0 && g_msc_mfp > 0 && !__CPROVER_isnand(g_msc_mfp) && g_msc_action != INVALID_ID)
-__CPROVER_assigns(track->t->step_length, track->t->post_step_action, g_msc_step, g_draws)
+__CPROVER_assigns(track->t->step_length, track->t->post_step_action, g_msc_step, g_draws, g_togeo)
 /* the true path never exceeds the physics step limit, the geometric path never exceeds the true path, and the step handed to the propagator is the geometric path (> 0) */
 __CPROVER_ensures(g_msc_step.true_path <= T0(step_length) && g_msc_step.geom_path <= g_msc_step.true_path && g_msc_step.geom_path > 0 && track->t->step_length == g_msc_step.geom_path)
 /* the step's action becomes the MSC action exactly when MSC shortened it; otherwise the physics action is kept */
 __CPROVER_ensures(track->t->post_step_action == T0(post_step_action) || track->t->post_step_action == g_msc_action)
 __CPROVER_ensures((g_msc_step.true_path < T0(step_length)) ==> track->t->post_step_action == g_msc_action)
+/* ... and a step that MSC did not shorten (same true path, geometric path within one MSC mean free path) keeps its physics action, so that the interaction chosen before the step still happens */
+__CPROVER_ensures((g_msc_step.true_path == T0(step_length) && g_togeo <= g_msc_mfp) ==> track->t->post_step_action == T0(post_step_action))
 {""" + pc.body + """}
 void h_umsl(void)
 {
